@@ -23,6 +23,9 @@ mod regex_to_nfa;
 mod right_ctx;
 mod semantic_action_table;
 
+#[cfg(lexgen_verif)]
+mod verif;
+
 #[cfg(test)]
 mod tests;
 
@@ -39,6 +42,12 @@ use std::collections::hash_map::Entry;
 use proc_macro::TokenStream;
 use syn::parse::Parser;
 
+#[cfg(lexgen_verif)]
+#[proc_macro]
+pub fn lexer_verif(input: TokenStream) -> TokenStream {
+    verif::lexer_verif(input)
+}
+
 #[proc_macro]
 pub fn lexer(input: TokenStream) -> TokenStream {
     let mut semantic_action_table = SemanticActionTable::new();
@@ -54,6 +63,11 @@ pub fn lexer(input: TokenStream) -> TokenStream {
         Ok(lexer) => lexer,
         Err(error) => return TokenStream::from(error.to_compile_error()),
     };
+
+    #[cfg(lexgen_verif)]
+    let _verif_session = verif::begin(&type_name.to_string());
+    #[cfg(lexgen_verif)]
+    verif::field_str("ast", &format!("{:?}", top_level_rules));
 
     // Maps DFA names to their initial states in the final DFA
     let mut dfas: Map<String, dfa::StateIdx> = Default::default();
@@ -147,7 +161,20 @@ pub fn lexer(input: TokenStream) -> TokenStream {
 
     dfa::update_backtracks(&mut dfa);
 
+    #[cfg(lexgen_verif)]
+    {
+        verif::field("dfa_pre", dfa::verif::dfa_json(&dfa));
+        verif::field("entry_pre", dfa::verif::entry_json(dfas.iter()));
+        verif::field("ctx", dfa::verif::right_ctx_json(&right_ctx_dfas));
+    }
+
     let dfa = dfa::simplify::simplify(dfa, &mut dfas);
+
+    #[cfg(lexgen_verif)]
+    {
+        verif::field("dfa", dfa::verif::dfa_json(&dfa));
+        verif::field("entry", dfa::verif::entry_json(dfas.iter()));
+    }
 
     dfa::codegen::generate(
         dfa,
